@@ -577,6 +577,18 @@ func (p *parser) readDirUse() (du *DirectiveUse, err error) {
 	if du.Directive == nil {
 		return nil, parseError(p.line, p.col, "directive missing")
 	}
+	if _, ok := du.Directive.(*Directive); !ok {
+		// readType() looks for types before directives so a type with the
+		// same name as the directive, or a reference, was found. Directives
+		// are in a name space of their own.
+		name := du.Directive.Name()
+		du.Directive = &Ref{Base: Base{N: name}}
+		if p.root != nil && p.root.dirs != nil {
+			if d := p.root.dirs.get(name); d != nil {
+				du.Directive = d
+			}
+		}
+	}
 	if p.onDeck == '(' {
 		_, _ = p.readByte() // re-read opening (
 		// Read the arguments.
